@@ -312,6 +312,8 @@ func (s *indexKVStore) getSnapshot() version.Snapshot {
 func (s *indexKVStore) getOrCreateValue(bucketID uint32, key []byte,
 	createFn func() (uint32, error),
 ) (id uint32, ok, isNew bool, err error) {
+	// snapshot which the lookup is based on, need get it before lookup memory store
+	snapshot := s.getSnapshot()
 	// get from memory store
 	id, ok = s.GetValueFromMem(bucketID, key)
 	if ok {
@@ -321,7 +323,6 @@ func (s *indexKVStore) getOrCreateValue(bucketID uint32, key []byte,
 	bucket, ok := s.bucketCache.Get(bucketID)
 	if !ok {
 		// get from kv store(persist)
-		snapshot := s.getSnapshot()
 		reader := v1.NewIndexKVReader(snapshot)
 		bucket, err = reader.GetBucket(bucketID)
 		if err != nil {
@@ -343,17 +344,42 @@ func (s *indexKVStore) getOrCreateValue(bucketID uint32, key []byte,
 	if createFn == nil {
 		return 0, false, false, nil
 	}
-	id, err = s.createValue(bucketID, key, createFn)
+	id, isNew, err = s.createValue(bucketID, key, snapshot, createFn)
 	if err != nil {
 		return 0, false, false, err
 	}
-	return id, true, true, nil
+	return id, true, isNew, nil
 }
 
-// createValue creates new value.
-func (s *indexKVStore) createValue(bucketID uint32, key []byte, createFn func() (uint32, error)) (uint32, error) {
+// createValue creates new value if the key still doesn't exist.
+// NOTE: the lookup was done without the write lock, so need check again under the write lock,
+// another goroutine maybe created(or flushed) the same key after the lookup.
+func (s *indexKVStore) createValue(bucketID uint32, key []byte,
+	lookupSnapshot version.Snapshot, createFn func() (uint32, error),
+) (id uint32, isNew bool, err error) {
 	s.lock.Lock()
 	defer s.lock.Unlock()
+
+	if id, ok := s.getValueFromMem(s.mutable, bucketID, key); ok {
+		return id, false, nil
+	}
+	if id, ok := s.getValueFromMem(s.immutable, bucketID, key); ok {
+		return id, false, nil
+	}
+	if s.snapshot != lookupSnapshot {
+		// memory store was flushed after the lookup, need check the new snapshot
+		bucket, err := v1.NewIndexKVReader(s.snapshot).GetBucket(bucketID)
+		if err != nil {
+			return 0, false, err
+		}
+		if bucket != nil {
+			id, ok := bucket.GetValue(key)
+			bucket.Release()
+			if ok {
+				return id, false, nil
+			}
+		}
+	}
 
 	kvs, ok := s.mutable.Get(bucketID)
 	if !ok {
@@ -361,12 +387,12 @@ func (s *indexKVStore) createValue(bucketID uint32, key []byte, createFn func() 
 		s.mutable.Put(bucketID, kvs)
 	}
 	// generate and store value
-	id, err := createFn()
+	id, err = createFn()
 	if err != nil {
-		return 0, err
+		return 0, false, err
 	}
 	kvs[string(key)] = id
-	return id, nil
+	return id, true, nil
 }
 
 // GetValueFromMem returns value from mem store.
